@@ -4,6 +4,12 @@ Purity monitor: sha256 of the caller's buffer before/after; field-level digests 
 (a) twice in one process, (b) in fresh processes under PYTHONHASHSEED 0, 1, 2 and 'random'; and, per result, the digest
 before, between and after a seeded random word of observer calls (full text, units, unit accessors, images, bytes, tables,
 metadata, to_json) — any change is a violation keyed by the field that changed.
+
+A result, once returned, never changes because of later extractions: every worker keeps the last few results alive and
+re-digests them after each later extraction of another input (opportunistic, whatever the pool happened to schedule),
+and *sequence* cases do the same deterministically over context groups of vlib/gen/isolation_docs.py — documents that
+share a sub-key and differ in its context, packages whose optional parts (meta.xml, docProps, styles) are absent or only
+referenced, each with its own path argument (None included) — and finally repeat the first extractions of the sequence.
 """
 from __future__ import annotations
 
@@ -13,6 +19,7 @@ import json
 import random
 
 from vlib import corpus, pool
+from vlib.gen import isolation_docs as iso
 
 LEVEL = "exploration"
 OBSERVERS = ["full_text", "units", "unit_text", "unit_images", "unit_tables", "unit_meta", "images", "image_bytes", "image_meta", "tables", "metadata", "to_json", "unit_to_json"]
@@ -84,18 +91,107 @@ def _observe(r, name):
     raise ValueError(name)
 
 
-def work(case):
+_HELD: list = []          # results of earlier cases of this worker process, kept alive: [label, fmt, results, digests]
+HELD_MAX = 4
+
+
+def _digest_results(results, tag=""):
+    d = {}
+    for i, r in enumerate(results[:10]):
+        for k, v in field_digests(r.to_json()).items():
+            d[f"{type(r).__name__}#{tag}{i}.{k}"] = v
+    return d
+
+
+def _field(k: str) -> str:
+    return k.split(".", 1)[1] if "." in k else k
+
+
+def _recheck(entry, problems, by):
+    """Re-digest results returned earlier; a difference means a later extraction reached into an object it had handed out."""
+    label, fmt, results, before = entry[:4]
+    try:
+        now = _digest_results(results, entry[4] if len(entry) > 4 else "")
+    except Exception as e:
+        problems.append({"cmp": "later-extraction", "field": f"earlier-result-to_json-raises-{type(e).__name__}", "fmt": fmt, "by": by, "earlier": label})
+        return
+    changed = sorted(k for k in set(before) | set(now) if before.get(k) != now.get(k))
+    for k in changed[:3]:
+        problems.append({"cmp": "later-extraction", "field": f"earlier-result-changed:{_field(k)}", "fmt": fmt, "by": by, "earlier": label})
+    if changed:
+        entry[3] = now
+
+
+def _fmt_of(kind, recipe):
+    src = recipe["src"]
+    if iso.is_iso(src):
+        return kind
+    return src[1] if src[0] == "gen" else kind
+
+
+def work_seq(case):
+    """A deterministic sequence of extractions in one process: all results stay alive and are re-digested after every later step;
+    at the end every step is repeated and must give what it gave first."""
+    import time
     from vlib import obs
     from vlib.worker import arm_cpu
     arm_cpu(120)
-    data = corpus.make_input(case["recipe"])
+    out = {"kind": "seq", "problems": [], "digest": {}}
+    insha = hashlib.sha256()
+    alive = []
+    firsts = []
+    rechecks = 0
+    for j, (kind, recipe, pidx) in enumerate(case["steps"]):
+        data = iso.make_input(recipe)
+        ext = corpus.KIND_EXT[kind] if kind != "zip" else iso.source_ext(recipe["src"])
+        path = iso.path_for(pidx, ext)
+        label = f"step {j}: {kind} {recipe['src'][1:]} path={path!r}"
+        insha.update(hashlib.sha256(data).digest())
+        try:
+            rs = list(obs.extractor(kind)(io.BytesIO(data), path))
+            d = _digest_results(rs, f"s{j}r")
+        except Exception as e:
+            rs, d = [], {f"$exc#s{j}r0.$exc": type(e).__name__}
+        out["digest"].update(d)
+        for entry in alive[-3:]:            # the most recent ones after every step (says which step did it); all of them at the end
+            _recheck(entry, out["problems"], label)
+            rechecks += 1
+        alive.append([label, _fmt_of(kind, recipe), rs, d, f"s{j}r"])
+        if len(firsts) < 40:            # every step is repeated at the end (the documents are small)
+            firsts.append((kind, data, path, d, j, _fmt_of(kind, recipe)))
+    for kind, data, path, d0, j, fmt in firsts:
+        try:
+            d1 = _digest_results(list(obs.extractor(kind)(io.BytesIO(data), path)), f"s{j}r")
+        except Exception as e:
+            d1 = {f"$exc#s{j}r0.$exc": type(e).__name__}
+        for k in sorted(set(d0) | set(d1)):
+            if d0.get(k) != d1.get(k):
+                out["problems"].append({"cmp": "same-process-repeat-after-other-extractions", "field": _field(k), "fmt": fmt})
+    for entry in alive:
+        _recheck(entry, out["problems"], "a later step or the repeat of one of the first steps")
+        rechecks += 1
+    out["rechecks"] = rechecks
+    out["steps"] = len(case["steps"])
+    out["input_sha"] = insha.hexdigest()[:16]
+    return out
+
+
+def work(case):
+    import time
+    from vlib import obs
+    from vlib.worker import arm_cpu
+    if case["kind"] == "seq":
+        return work_seq(case)
+    arm_cpu(120)
+    data = iso.make_input(case["recipe"])
     kind = case["kind"]
-    ext = corpus.KIND_EXT[kind] if kind != "zip" else corpus.source_ext(case["recipe"]["src"])
-    path = "dir/in" + ext
+    ext = corpus.KIND_EXT[kind] if kind != "zip" else iso.source_ext(case["recipe"]["src"])
+    path = iso.path_for(case.get("pidx", 1), ext)
     out = {"kind": kind, "problems": []}
     fn = obs.extractor(kind)
     buf = io.BytesIO(data)
     before = hashlib.sha256(buf.getvalue()).hexdigest()
+    out["input_sha"] = before[:16]
     try:
         ra = list(fn(buf, path))
     except Exception as e:
@@ -108,6 +204,7 @@ def work(case):
             if type(e2) is not type(e):
                 out["problems"].append({"cmp": "same-process-repeat", "field": f"exception-type {type(e).__name__} vs {type(e2).__name__}"})
         out["digest"] = {"$exc": type(e).__name__}
+        out["rechecks"] = _recheck_held(out["problems"], f"case {case['id']} ({kind}, failing)")
         return out
     if hashlib.sha256(buf.getvalue()).hexdigest() != before or len(buf.getvalue()) != len(data):
         out["problems"].append({"cmp": "buffer", "field": "caller-buffer-content-changed"})
@@ -158,7 +255,23 @@ def work(case):
                 base = now
         words += 1
     out["observer_words"] = words
+    # results returned by earlier cases of this process must still say what they said
+    out["rechecks"] = _recheck_held(out["problems"], f"case {case['id']} ({kind} {case['recipe']['src'][1:]})")
+    t0 = time.perf_counter()
+    try:
+        d = _digest_results(ra[:4])
+    except Exception:
+        d = None
+    if d is not None and time.perf_counter() - t0 < 0.02:          # only cheap-to-digest results are kept
+        _HELD.append([f"case {case['id']} ({kind} {case['recipe']['src'][1:]} path={path!r})", _fmt_of(kind, case["recipe"]), ra[:4], d])
+        del _HELD[:-HELD_MAX]
     return out
+
+
+def _recheck_held(problems, by) -> int:
+    for entry in _HELD:
+        _recheck(entry, problems, by)
+    return len(_HELD)
 
 
 def gen_cases(run):
@@ -177,16 +290,47 @@ def gen_cases(run):
                 fam, op = rng.choice(fams)
                 cid += 1
                 yield {"id": cid, "kind": kind, "recipe": {"src": src, "op": op, "family": fam, "mseed": rng.randrange(1 << 30)}, "wseed": run.seed}
+    # context-group documents (shared sub-key / different context; optional parts absent or dangling), each under a path of its own
+    iso_srcs = iso.all_sources() + iso.dropped_sources(sources, per_kind=run.n(1, 4))
+    for n, (kind, src) in enumerate(iso_srcs):
+        for pidx in ((cid % len(iso.PATHS)),) if run.quick else range(len(iso.PATHS)):
+            cid += 1
+            yield {"id": cid, "kind": kind, "recipe": {"src": src, "op": None}, "wseed": run.seed, "pidx": pidx}
+        if rng.random() < (0.3 if run.quick else 1.0):
+            cid += 1
+            yield {"id": cid, "kind": kind, "recipe": {"src": src, "op": rng.choice(("bitflip", "truncate_tail", "zero")), "family": "byte", "mseed": rng.randrange(1 << 30)},
+                   "wseed": run.seed, "pidx": cid % len(iso.PATHS)}
+    # sequences over the groups: every member at least once, some twice, shuffled, every step with its own path (None included)
+    groups = [dict(g, members=[m for m in g["members"] if m[0] != "route"]) for g in iso.groups()]      # routing questions are C07's / C15's
+    groups = [g for g in groups if len(g["members"]) >= 2]
+    by_kind = {}
+    for kind, src in iso_srcs:
+        if src[1] == "drop":
+            by_kind.setdefault(kind, []).append((kind, src))
+    for kind, ms in sorted(by_kind.items()):
+        groups.append({"name": f"{kind}:optional-parts-removed/package", "members": ms + [(kind, ms[0][1][2])]})
+    for g in groups:
+        for rep in range(run.n(2, 8)):
+            ms = list(g["members"])
+            seq = ms + [rng.choice(ms) for _ in range(rng.randint(1, 4))]
+            rng.shuffle(seq)
+            cid += 1
+            yield {"id": cid, "kind": "seq", "group": g["name"], "steps": [[k, {"src": s, "op": None}, rng.randrange(len(iso.PATHS))] for k, s in seq]}
 
 
 def main(run):
     run.rule = ("case = one (bytes, path) input extracted twice in one process and once per fresh process under PYTHONHASHSEED 0/1/2/random, each result walked by a random observer word; "
+                "or one deterministic sequence of extractions over a context group (shared sub-key / different context, optional parts absent; own path argument per step) in which every earlier result "
+                "is re-digested after later steps and the first steps are repeated at the end; "
                 "distinct = (kind, feature, mutated?, outcome, problem set); non-trivial = digests of >= 1 result were compared")
-    run.assumptions = ["the path is relative and non-existent so that file metadata cannot depend on the host", "field-level digests two levels deep localise a difference to a field name"]
+    run.assumptions = ["the path is non-existent (or None) so that file metadata cannot depend on the host",
+                       "a worker keeps the last few cheap-to-digest results of earlier cases alive; which cases meet in one worker is decided by the pool (the sequence cases are the deterministic form)", "field-level digests two levels deep localise a difference to a field name"]
     cases = list(gen_cases(run))
     by_seed = {}
     problems = {}
-    words = 0
+    notes = {}
+    input_shas = {}
+    words = rechecks = seq_steps = 0
     for hs in ("0", "1", "2", "random"):
         digests = {}
         for case, ob in pool.run_cases("checks.c06:work", cases, deadline_s=300, hashseed=hs, rlimit_as=2 * 2**30):
@@ -198,15 +342,28 @@ def main(run):
                 run.inconclusive_cases += 1
                 continue
             digests[case["id"]] = ob.get("digest", {})
+            input_shas.setdefault(case["id"], set()).add(ob.get("input_sha"))
             words += ob.get("observer_words", 0)
+            rechecks += ob.get("rechecks", 0)
+            seq_steps += ob.get("steps", 0)
             for p in ob.get("problems", []):
-                problems.setdefault(case["id"], set()).add((p["cmp"], p["field"]))
+                problems.setdefault(case["id"], set()).add((p["cmp"], p["field"], p.get("fmt")))
+                if p.get("earlier"):
+                    notes.setdefault((case["id"], p["cmp"], p["field"], p.get("fmt")), f"result of {p['earlier']} changed after {p['by']}")
         by_seed[hs] = digests
     case_by_id = {c["id"]: c for c in cases}
     compared = 0
+    unstable_inputs = []
     for cid, c in case_by_id.items():
         ds = [by_seed[hs].get(cid) for hs in by_seed]
         if any(d is None for d in ds):
+            run.case(None, nontrivial=False)
+            continue
+        if len(input_shas.get(cid, ())) > 1 and any(d != ds[0] for d in ds[1:]):
+            # the generator did not hand the same bytes to the four passes (a writer that is not bit-deterministic, or one edited while
+            # the check was running) *and* the results differ: the difference cannot be attributed to the library
+            # (bytes that differ only in a container timestamp, e.g. the gzip header, give equal results and are compared as usual)
+            unstable_inputs.append(c.get("group") or c["recipe"]["src"])
             run.case(None, nontrivial=False)
             continue
         compared += 1
@@ -214,22 +371,48 @@ def main(run):
         for hs, d in zip(list(by_seed)[1:], ds[1:]):
             for k in sorted(set(ref) | set(d)):
                 if ref.get(k) != d.get(k):
-                    problems.setdefault(cid, set()).add(("fresh-process-or-hash-seed", k.split(".", 1)[1] if "." in k else k))
-        src = c["recipe"]["src"]
-        feat = src[3] if src[0] == "gen" and src[3] else ("fixture" if src[0] == "fx" else "clean")
-        fmt = src[1] if src[0] == "gen" else c["kind"]
-        mutated = bool(c["recipe"].get("op"))
+                    # in a sequence the format is the one of the step whose result differs (type name of the result object)
+                    pf = k.split("#", 1)[0].lower().removesuffix("content") if c["kind"] == "seq" and "#" in k else None
+                    problems.setdefault(cid, set()).add(("fresh-process-or-hash-seed", k.split(".", 1)[1] if "." in k else k, pf or None))
+        if c["kind"] == "seq":
+            src, feat, fmt, mutated = ["seq", c["group"]], c["group"], "sequence", False
+        else:
+            src = c["recipe"]["src"]
+            if iso.is_iso(src):
+                feat = iso.feature(src, c["kind"])
+                fmt = c["kind"]
+            else:
+                feat = src[3] if src[0] == "gen" and src[3] else ("fixture" if src[0] == "fx" else "clean")
+                fmt = src[1] if src[0] == "gen" else c["kind"]
+            mutated = bool(c["recipe"].get("op"))
         seen = set()
-        for cmp_, field in sorted(problems.get(cid, ())):
-            key = f"C06:{fmt}:{cmp_}:{field}"
+        for cmp_, field, pfmt in sorted(problems.get(cid, ()), key=str):
+            key = f"C06:{pfmt or fmt}:{cmp_}:{field}"
             seen.add(key)
-            run.violation(key, f"{fmt} ({feat}{', mutated ' + c['recipe']['op'] if mutated else ''}, {src}): {cmp_}: {field} differs", {"case": c})
+            what = f"{fmt} ({feat}{', mutated ' + c['recipe']['op'] if mutated else ''}, {src}): {cmp_}: {field} differs"
+            if (cid, cmp_, field, pfmt) in notes:
+                what += " — " + notes[(cid, cmp_, field, pfmt)]
+            run.violation(key, what, {"case": c})
         run.case(f"{c['kind']}:{feat}:{mutated}:{len(ref)}:{','.join(sorted(seen))}", nontrivial=bool(ref) and "$exc" not in ref,
-                 sample={"kind": c["kind"], "src": src, "op": c["recipe"].get("op"), "fields_digested": len(ref), "problems": sorted(seen)} if cid % 53 == 0 else None)
+                 sample={"kind": c["kind"], "src": src, "op": c.get("recipe", {}).get("op"), "fields_digested": len(ref), "problems": sorted(seen)} if cid % 53 == 0 else None)
     run.count("inputs_compared_across_4_hash_seeds", compared)
+    if unstable_inputs:
+        run.extras["inputs_not_bit_identical_across_passes"] = unstable_inputs[:20]
+        run.inconclusive(f"{len(unstable_inputs)} generated inputs were not bit-identical in the four passes and gave different results (generator not deterministic or edited during the run), e.g. {unstable_inputs[:3]}")
     run.count("observer_words_walked", words)
     run.require("inputs_compared_across_4_hash_seeds", compared, run.n(200, 2000))
     run.require("observer_words_walked", words, run.n(500, 5000))
+    run.count("earlier_results_redigested_after_later_extractions", rechecks)
+    run.count("sequence_steps", seq_steps)
+    n_iso = sum(1 for c in cases if c["kind"] != "seq" and iso.is_iso(c["recipe"]["src"]))
+    run.count("context_group_documents", n_iso)
+    run.count("documents_without_optional_parts", sum(1 for c in cases if c["kind"] != "seq" and iso.is_iso(c["recipe"]["src"]) and not c["recipe"].get("op")
+                                                      and (c["recipe"]["src"][1] == "drop" or (c["recipe"]["src"][1], c["recipe"]["src"][2]) in iso.OPTIONAL_ABSENT)))
+    run.count("path_argument_forms", len({c.get("pidx", 1) for c in cases if c["kind"] != "seq"}))
+    run.require("earlier_results_redigested_after_later_extractions", rechecks, run.n(3000, 30000))
+    run.require("sequence_steps", seq_steps, run.n(4 * 300, 4 * 1200))
+    run.require("documents_without_optional_parts", run.counters["documents_without_optional_parts"], 40)
+    run.require("path_argument_forms", run.counters["path_argument_forms"], len(iso.PATHS))
 
 
 def replay(run, doc):
